@@ -1,5 +1,14 @@
 #!/bin/sh
-# Re-run every seeded change under /verif/seeded against its property's check (quick tier).
-# Every line must end in check_exit=1; anything else means a check lost its teeth.
+# Re-run every seeded change under /verif/seeded against its property's check.
+# meta.json "expected_detection": absent/"quick" = the quick tier must report it (check_exit=1),
+# "thorough" = only the thorough tier does, "none" = recorded as not caught (DESIGN.md 11.5).
+# Every line must end in check_exit=1 except those marked KNOWN-MISS.
 cd "$(dirname "$0")/.."
-for d in seeded/*/; do tools/try_seed.sh "$d" "${1:-quick}" | grep '^RESULT'; done
+for d in seeded/*/; do
+    exp=$(sed -n 's/.*"expected_detection": *"\([a-z]*\)".*/\1/p' "$d/meta.json" | head -n 1)
+    case "$exp" in
+        thorough) tools/try_seed.sh "$d" thorough | grep '^RESULT' | sed 's/$/ (thorough tier)/' ;;
+        none) tools/try_seed.sh "$d" "${1:-quick}" | grep '^RESULT' | sed 's/$/ KNOWN-MISS/' ;;
+        *) tools/try_seed.sh "$d" "${1:-quick}" | grep '^RESULT' ;;
+    esac
+done
